@@ -23,7 +23,11 @@ FIXED = [0, 3600, -18000, 19800, 1172, -1, 86399, -86399, 45296]
 
 
 def tzfile_streams(ctx):
-    return [(n, d) for n, _, d in Z.pick_zones(ctx, "c04-zones")] + Z.synthetic_set(ctx, "c04-syn")
+    syn = Z.synthetic_set(ctx, "c04-syn")
+    if not (ctx.tier == "thorough" or ctx.escalated):
+        # the 200..256-type / 250-byte-table shapes are decoder shapes (C06); their lookups add nothing here
+        syn = [(n, d) for n, d in syn if not n.startswith(("syn:types_2", "syn:abbr_table_2"))]
+    return [(n, d) for n, _, d in Z.pick_zones(ctx, "c04-zones")] + syn
 
 
 def range_instances():
@@ -108,7 +112,7 @@ def correspondence(ctx):
             ctx.traces += len(pts)
 
 
-def law(ctx, kind, name, z, ups, required=lambda t: True, inforce=None, extra=None):
+def law(ctx, kind, name, z, ups, required=lambda t: True, inforce=None, extra=None, defer=None):
     """the round-trip law itself, on the implementation"""
     from dateutil import tz
     seen = {}
@@ -143,7 +147,10 @@ def law(ctx, kind, name, z, ups, required=lambda t: True, inforce=None, extra=No
             continue
         ctx.case((name, t)); ctx.count("law:" + kind)
         if prob is not None:
-            ctx.violation("%s: UTC %d -> local -> UTC: %s" % (name, t, prob), case, prob)
+            if defer is not None:
+                defer.append(("%s: UTC %d -> local -> UTC: %s" % (name, t, prob), case, prob))
+            else:
+                Z.report(ctx, KNOWN, "%s: UTC %d -> local -> UTC: %s" % (name, t, prob), case, prob)
 
 
 def oracle(ctx):
@@ -183,7 +190,18 @@ def oracle(ctx):
         ups, _ = Z.range_probes(z, Z.YEARS)
         std, dst = int(z._std_offset.total_seconds()), int(z._dst_offset.total_seconds())
         ups += Z.year_edge_probes(Z.YEARS[1:4], (std, dst))
-        law(ctx, "range", name, z, ups, extra={"saving": dst - std, "near_year_edge": Z.near_year_edge(z, Z.YEARS)})
+        pending = []
+        law(ctx, "range", name, z, ups, extra={"near_year_edge": Z.near_year_edge(z, Z.YEARS)}, defer=pending)
+        if pending:
+            # a failure is a KNOWN finding only if the Lean model of tzrangebase gives the same (wrong)
+            # answer at that instant AND the instant lies where the recorded defect lives
+            std_, dst_, has_, tbl_ = Z.range_zone_params(z, range(min(Z.YEARS) - 1, max(Z.YEARS) + 2))
+            ts_ = [c["t"] for _, c, _ in pending]
+            got = ctx.driver(["range.fromutc %d %d %d %s %s" % (std_, dst_, has_, Z.ilist(tbl_), Z.ilist(ts_))])[0].split()[1:]
+            for (what, case, prob), g in zip(pending, got):
+                case.update(Z.range_case_fields(z, case["t"]))
+                case["model_same"] = (g == Z.impl_fromutc_line(z, case["t"], with_dst_name=False))
+                Z.report(ctx, KNOWN, what, case, prob)
     # tzrange built from a tzstr zone's abbreviations, offsets and deltas: equal (__eq__, six fields)
     # and identical answers (model: C08.tzrange_eq_tzstr)
     for sname in Z.TZSTRS:
@@ -220,10 +238,7 @@ def oracle(ctx):
     ctx.sample({"zone": "tzoffset(1172)", "t": 0, "impl": Z.impl_fromutc_line(tz.tzoffset("LMT", 1172), 0)})
 
 
-KNOWN = {
-    "D-C05r": lambda v: v["case"].get("kind") == "range" and v["case"].get("saving", 0) < 0,
-    "D-C04y": lambda v: v["case"].get("kind") == "range" and v["case"].get("saving", 0) > 0 and v["case"].get("near_year_edge") is True,
-}
+KNOWN = {"D-C05r": Z.k_c05r, "D-C04y": Z.k_c04y}
 
 
 def replay(ctx, payload):
